@@ -29,13 +29,15 @@ CONSTANTS
                   \*   pflag: the flag the posting carries itself, <<>> when it has none (the usual case)
     MaxPostings,  \* ledgers = sequences of <= MaxPostings pool items, transactions in order
     Shapes,       \* sequence of BALANCES / JOURNAL statements
-    DirPool,      \* sequence of abstract directives [id, type, date, flag, payee, narration, accounts]
+    DirPool,      \* sequence of abstract directives [id, type, date, flag, payee, narration, accounts, tags, links]:
+                  \*   the attributes the directive itself CARRIES, <<>> where its type has no such attribute; tags and
+                  \*   links are <<set>>: transactions have them, and so do notes and documents
     MaxDirs,
     PrintShapes,  \* sequence of PRINT statements
     KnownStrings, \* memoisation only: strings / patterns whose order and matches are tabulated once at start-up
     KnownPats,    \*   (any other argument is computed directly by the same operators)
     Variant       \* "shipped" | "no_where" | "order_by_name" | "balance_raw" | "print_keeps_null" | "journal_no_match"
-                  \* | "flag_of_posting"
+                  \* | "flag_of_posting" | "attr_of_any_directive"
 
 \* TLC evaluates a constant that the configuration overrides by a definition at EVERY reference; the aliases
 \* below are ordinary constant-level definitions, which TLC evaluates once at start-up
@@ -128,7 +130,7 @@ InvAdd(inv, l) ==
 -----------------------------------------------------------------------------
 (* part 2: rows and three-valued expressions.
    A row is a record; optional string attributes are <<>> (NULL) or <<s>>.
-     directive rows : type, date (yyyymmdd), flag, payee, narration, accounts (set)
+     directive rows : type, date (yyyymmdd), flag, payee, narration, accounts (set), tags, links (<<>> or <<set>>)
      posting rows   : the same attributes of the parent transaction + account, lot, currency (of the raw position)
                       + pflag, the flag of the posting itself.  A posting and its transaction BOTH have a flag: the
                       register, and the column `flag` in any expression, mean the transaction's (`posting_flag` is the
@@ -138,8 +140,10 @@ InvAdd(inv, l) ==
                                                             posting_flag
                  [k |-> "match", col, p]            col ~ pattern
                  [k |-> "hasacct", p]               has_account(pattern)
+                 [k |-> "in", v, col]               'v' IN col          col in tags links (NULL when the column is NULL)
+                 [k |-> "isnull" | "notnull", col]  col IS [NOT] NULL   (never NULL itself)
                  [k |-> "and" | "or", l, r]   [k |-> "not", e]
-   Values "T" "F" "N" (SQL three-valued logic; a row is selected iff the value is "T"). *)
+   Values "T" "F" "N" (three-valued logic with BQL's NULL-aware NOT; a row is selected iff the value is "T"). *)
 TrueE == [k |-> "true"]
 \* mechanism: how the column `flag` of a row is resolved.  Directive rows have one flag.  A posting row has two objects
 \* behind it, the posting and its parent transaction: the code reads `flag` from the transaction.  The broken variant
@@ -157,6 +161,8 @@ ColVal(r, c) ==
       [] c = "account" -> <<r.account>>
       [] c = "currency" -> <<r.currency>>
       [] c = "number" -> <<r.lot[3]>>
+      [] c = "tags" -> r.tags
+      [] c = "links" -> r.links
 Cmp(op, a, b) ==
     CASE op = "=" -> a = b
       [] op = "!=" -> a # b
@@ -167,13 +173,18 @@ Cmp(op, a, b) ==
 B3(b) == IF b THEN "T" ELSE "F"
 And3(a, b) == IF a = "F" \/ b = "F" THEN "F" ELSE IF a = "N" \/ b = "N" THEN "N" ELSE "T"
 Or3(a, b) == IF a = "T" \/ b = "T" THEN "T" ELSE IF a = "N" \/ b = "N" THEN "N" ELSE "F"
-Not3(a) == IF a = "T" THEN "F" ELSE IF a = "F" THEN "T" ELSE "N"
+\* BQL's NOT is NULL-aware: NOT NULL is TRUE (the truth table property C01 states; And3 / Or3 are selection-equivalent to
+\* the code's loops, also under NOT: a NULL or FALSE conjunction is negated to TRUE either way)
+Not3(a) == IF a = "T" THEN "F" ELSE "T"
 RECURSIVE Eval3(_, _)
 Eval3(e, r) ==
     CASE e.k = "true" -> "T"
       [] e.k = "cmp" -> LET v == ColVal(r, e.col) IN IF v = <<>> THEN "N" ELSE B3(Cmp(e.op, v[1], e.v))
       [] e.k = "match" -> LET v == ColVal(r, e.col) IN IF v = <<>> THEN "N" ELSE B3(Matches(v[1], e.p))
       [] e.k = "hasacct" -> B3(\E a \in r.accounts : Matches(a, e.p))
+      [] e.k = "in" -> LET v == ColVal(r, e.col) IN IF v = <<>> THEN "N" ELSE B3(e.v \in v[1])
+      [] e.k = "isnull" -> B3(ColVal(r, e.col) = <<>>)
+      [] e.k = "notnull" -> B3(ColVal(r, e.col) # <<>>)
       [] e.k = "and" -> And3(Eval3(e.l, r), Eval3(e.r, r))
       [] e.k = "or" -> Or3(Eval3(e.l, r), Eval3(e.r, r))
       [] e.k = "not" -> Not3(Eval3(e.e, r))
@@ -191,7 +202,19 @@ PostingRows(led) ==
         IN [type |-> "transaction", date |-> h.date, flag |-> h.flag, payee |-> h.payee, narration |-> h.narration,
             accounts |-> {PoolV[led[j]].account : j \in {j \in 1..Len(led) : PoolV[led[j]].txn = p.txn}},
             account |-> p.account, lot |-> p.lot, currency |-> p.lot[1], pflag |-> p.pflag]]
-DirRows(led) == [i \in 1..Len(led) |-> DirPoolV[led[i]]]
+\* The entries table has one row per directive, of ANY type.  Its columns flag, payee, narration, tags and links are
+\* "the flag / ... / the set of tags / the set of links of the TRANSACTION": NULL on every row that is not a transaction
+\* -- also on the rows of notes and documents, which carry tags and links of their own (DirPool holds what the
+\* directive carries; the row holds what the columns mean).
+TxnOnly(d, v) == IF d.type = "transaction" THEN v ELSE <<>>
+DirRow(d) == [d EXCEPT !.flag = TxnOnly(d, d.flag), !.payee = TxnOnly(d, d.payee), !.narration = TxnOnly(d, d.narration),
+                       !.tags = TxnOnly(d, d.tags), !.links = TxnOnly(d, d.links)]
+DirRows(led) == [i \in 1..Len(led) |-> DirRow(DirPoolV[led[i]])]
+\* mechanism: the accessor of such a column applied to the directive object behind the row.  The code checks the type of
+\* the directive first; the broken variant hands out the attribute of whatever directive carries one of that name.
+AttrCol(d, v) == IF Variant = "attr_of_any_directive" THEN v ELSE TxnOnly(d, v)
+MechDirRow(d) == [d EXCEPT !.flag = AttrCol(d, d.flag), !.payee = AttrCol(d, d.payee), !.narration = AttrCol(d, d.narration),
+                           !.tags = AttrCol(d, d.tags), !.links = AttrCol(d, d.links)]
 
 \* (operators with a parameter: TLC evaluates parameterless constant definitions at start-up even when unused)
 Ledgers(m) == UNION {{s \in [1..n -> 1..Len(PoolV)] : \A i \in 1..(n - 1) : PoolV[s[i]].txn <= PoolV[s[i + 1]].txn}
@@ -264,6 +287,9 @@ ETokens(e) ==
       [] e.k = "cmp" -> <<e.col, e.op, e.lit>>
       [] e.k = "match" -> <<e.col, "~", Quote(PatText(e.p))>>
       [] e.k = "hasacct" -> <<"has_account", "(", Quote(PatText(e.p)), ")">>
+      [] e.k = "in" -> <<Quote(e.v), "IN", e.col>>
+      [] e.k = "isnull" -> <<e.col, "IS", "NULL">>
+      [] e.k = "notnull" -> <<e.col, "IS", "NOT", "NULL">>
       [] e.k = "and" -> <<"(">> \o ETokens(e.l) \o <<")", "AND", "(">> \o ETokens(e.r) \o <<")">>
       [] e.k = "or" -> <<"(">> \o ETokens(e.l) \o <<")", "OR", "(">> \o ETokens(e.r) \o <<")">>
       [] e.k = "not" -> <<"NOT", "(">> \o ETokens(e.e) \o <<")">>
@@ -465,7 +491,7 @@ PrintDrop(keep) ==
     /\ UNCHANGED <<tbl, ledger, si, phase, ctxbal, out, gkeys, gvals>>
 PrintScan ==
     /\ phase = "scan" /\ tbl = "entries" /\ pos <= Len(ledger)
-    /\ LET keep == PrintTruthy(Eval3(Q.sel.from.expr, Rows[pos])) IN PrintKeep(keep) \/ PrintDrop(keep)
+    /\ LET keep == PrintTruthy(Eval3(Q.sel.from.expr, MechDirRow(DirPoolV[ledger[pos]]))) IN PrintKeep(keep) \/ PrintDrop(keep)
 PrintEmit ==
     /\ phase = "scan" /\ tbl = "entries" /\ pos > Len(ledger)
     /\ phase' = "done"
